@@ -1,13 +1,50 @@
 (* C08 - Per-node finality tracking and pruning are certificate-justified and lossless.
-   PARTIAL: proved for the model - the watermark never decreases and only moves over decided slots
-   (nothing undecided is dropped), the highest finalized slot is untouched by pruning, after pruning
-   nothing below the watermark is retained (tracker status, parent links, per-slot pool state), votes
-   and certificates are refused exactly for slots below the watermark (or too far ahead) and never
-   otherwise.  "finalized exactly when the certificates justify it", "watermark = end of the maximal
-   decided prefix" and "ancestors finalized as soon as links are known" are decided by the oracle
-   c08_step_ok on implementation traces and the model/implementation correspondence. *)
+
+   PROVED for the model of the finality tracker (Model/Pool.v ft_ definitions = finality_tracker.rs, current tree),
+   for EVERY sequence of operations from the initial tracker (parent registrations, notarization marks,
+   fast-finalization marks, finalization marks, in any order, with repetitions, including marks and links
+   for slots already decided or pruned), provided the history is CONSISTENT WITH SOME CHAIN
+   C : slot -> option hash (ft_consistent C ops = true, Model/FinalitySpec.v):
+     - every fast-finalized block is the chain's block of its slot; every finalized slot is on the chain;
+     - at most one notarized block per slot, and it is the chain's block if the slot is on the chain
+       (genesis (0,0) counts as notarized);
+     - a parent is older than its child, a block has one parent, and if a block is on the chain so is its
+       parent and no slot strictly between them is.
+   The chain is a ghost: the tracker never sees it, and C is universally quantified.
+   Specification (Model/FinalitySpec.v), over the accumulated marks and links = the list of operations:
+     Direct b    = fast mark for b, or final mark for b's slot and notar mark for b;
+     FinalStar b = Direct b, or b is the known parent of a FinalStar block;   SkippedStar s = s lies strictly
+     between a FinalStar block and its known parent;  spec_view = the same as a boolean function
+     (C08_spec_decides_*: final_starb / spec_view decide FinalStar / SkippedStar).
+   Theorems:
+     (0) C08_consistent_run_never_panics;
+     (1) C08_status_is_spec: for every slot the tracker still holds (>= watermark)
+         'ft_view t s = spec_view ops s' (finalized with h / implicitly skipped / final pending notar /
+         notarized h / nothing); C08_reported_final_iff = soundness and completeness w.r.t. FinalStar;
+     (2) C08_reported_skipped_iff: implicitly skipped exactly the slots between a finalized block and its
+         finalized known parent;
+     (3) C08_highest_is_max_direct, C08_watermark_is_decided_prefix (all slots 1..watermark decided,
+         watermark+1 not, nothing older retained), C08_pruned_slots_follow_chain, C08_run_monotone;
+     (4) C08_events_exactly_once: over the whole run no (slot, block) and no skipped slot is reported twice,
+         everything reported is justified, every justified block of a slot > 0 and every skipped slot is
+         reported; with C08_consistency_inherited_by_prefixes this holds after every operation, i.e. each
+         report is made by the very operation that justifies it ("as soon as the parent links are known");
+     (5) C08_late_notarization_ignored / _finalization_ / _fast_finalization_: a late mark for a decided slot
+         returns the identical tracker and no event (no consistency needed; fast: same view);
+         C08_without_restore_refuted: without writing the decided status back (the defect recorded for the
+         pinned tree, fixed by b32759c) a consistent history makes the tracker contradict the specification.
+   Needed hypotheses: C08_inconsistent_history_refuted (two fast-finalized blocks in one slot: panic, or -
+   after pruning - a justified block that is never reported).
+   Observation: C08_genesis_report_depends_on_order (genesis is reported as implicitly finalized only if
+   the link of its child is known before the child is finalized) - hence 'slot > 0' in (4).
+   Earlier theorems (kept): pruning is lossless, the pool retains / accepts nothing below the watermark.
+
+   ORACLE-ONLY (c08_step_ok on implementation traces + model/implementation correspondence): that the
+   POOL drives the tracker with exactly the marks its certificates justify (add_valid_cert / add_block call
+   the operations above; the link certificate -> mark is by inspection of pool_add_cert and the
+   correspondence), the far-future bound, and the parent-ready side (C07). *)
 From Coq Require Import List NArith Bool.
-From AG Require Import Gen.Params Model.Pool Model.PoolSpec Proofs.TrackerProofs.
+From AG Require Import Gen.Params Model.Pool Model.PoolSpec Model.FinalitySpec Proofs.TrackerProofs Proofs.FinalityProofs.
 Import ListNotations.
 Open Scope N_scope.
 
@@ -38,8 +75,152 @@ Theorem C08_undecided_votes_not_refused : forall e p vt,
   snd (fst (pool_step e p (OpVote vt))) <> RVerdict VOutOfBounds.
 Proof. exact vote_in_bounds_not_refused. Qed.
 
+(* ---------- the finality tracker against the specification, every operation sequence ---------- *)
+Theorem C08_consistent_run_never_panics : forall (C : slot -> option hash) (ops : list ft_op),
+  ft_consistent C ops = true -> ft_run ft_init ops <> None.
+Proof. exact consistent_run_never_panics. Qed.
+
+Theorem C08_status_is_spec : forall (C : slot -> option hash) (ops : list ft_op),
+  ft_consistent C ops = true ->
+  forall t evs, ft_run ft_init ops = Some (t, evs) ->
+  forall s, ft_first t <= s -> ft_view t s = spec_view ops s.
+Proof. exact status_is_spec. Qed.
+
+Theorem C08_reported_final_iff : forall (C : slot -> option hash) (ops : list ft_op),
+  ft_consistent C ops = true ->
+  forall t evs, ft_run ft_init ops = Some (t, evs) ->
+  forall s h, ft_first t <= s -> (ft_view t s = VFinal h <-> FinalStar ops (s, h)).
+Proof. exact reported_final_iff. Qed.
+
+Theorem C08_reported_skipped_iff : forall (C : slot -> option hash) (ops : list ft_op),
+  ft_consistent C ops = true ->
+  forall t evs, ft_run ft_init ops = Some (t, evs) ->
+  forall s, ft_first t <= s -> (ft_view t s = VSkipped <-> SkippedStar ops s).
+Proof. exact reported_skipped_iff. Qed.
+
+Theorem C08_spec_decides_final : forall (H : hist) (b : blockid),
+  (forall c p, Link H c p -> fst p < fst c) -> (final_starb H b = true <-> FinalStar H b).
+Proof. exact final_starb_iff. Qed.
+
+Theorem C08_spec_decides_skipped : forall (H : hist) (s : slot),
+  (forall c p, Link H c p -> fst p < fst c) -> (spec_skipped H s = true <-> SkippedStar H s).
+Proof. exact spec_skipped_iff. Qed.
+
+Theorem C08_highest_is_max_direct : forall (C : slot -> option hash) (ops : list ft_op),
+  ft_consistent C ops = true ->
+  forall t evs, ft_run ft_init ops = Some (t, evs) ->
+  (forall b, Direct ops b -> fst b <= ft_highest t) /\
+  (ft_highest t = 0 \/ exists b, Direct ops b /\ fst b = ft_highest t).
+Proof. exact highest_is_max_direct. Qed.
+
+Theorem C08_watermark_is_decided_prefix : forall (C : slot -> option hash) (ops : list ft_op),
+  ft_consistent C ops = true ->
+  forall t evs, ft_run ft_init ops = Some (t, evs) ->
+  (forall s, 0 < s <= ft_first t -> view_decided (spec_view ops s) = true) /\
+  view_decided (spec_view ops (ft_first t + 1)) = false /\
+  (forall s v, In (s, v) (ft_status t) -> ft_first t <= s) /\
+  (forall b p, In (b, p) (ft_parents t) -> ft_first t <= fst b).
+Proof. exact watermark_is_decided_prefix. Qed.
+
+Theorem C08_pruned_slots_follow_chain : forall (C : slot -> option hash) (ops : list ft_op),
+  ft_consistent C ops = true ->
+  forall t evs, ft_run ft_init ops = Some (t, evs) ->
+  forall s, 0 < s < ft_first t ->
+  match C s with Some h => FinalStar ops (s, h) | None => SkippedStar ops s end.
+Proof. exact pruned_slots_follow_chain. Qed.
+
+Theorem C08_run_monotone : forall (C : slot -> option hash) ops1 ops2 t1 e1 t2 e2,
+  ft_consistent C (ops1 ++ ops2) = true ->
+  ft_run ft_init ops1 = Some (t1, e1) -> ft_run ft_init (ops1 ++ ops2) = Some (t2, e2) ->
+  ft_first t1 <= ft_first t2 /\ ft_highest t1 <= ft_highest t2.
+Proof. exact run_monotone. Qed.
+
+Theorem C08_events_exactly_once : forall (C : slot -> option hash) (ops : list ft_op),
+  ft_consistent C ops = true ->
+  forall t evs, ft_run ft_init ops = Some (t, evs) ->
+  NoDup (all_final_events evs) /\ NoDup (all_skip_events evs) /\
+  (forall x, In x (all_final_events evs) -> FinalStar ops x) /\
+  (forall x, FinalStar ops x -> 0 < fst x -> In x (all_final_events evs)) /\
+  (forall s, In s (all_skip_events evs) <-> SkippedStar ops s).
+Proof. exact events_once. Qed.
+
+Theorem C08_consistency_inherited_by_prefixes : forall (C : slot -> option hash) a b,
+  ft_consistent C (a ++ b) = true -> ft_consistent C a = true.
+Proof. exact consistent_prefix. Qed.
+
+Theorem C08_late_notarization_ignored : forall t b t' ev,
+  is_decided (alookup (fst b) (ft_status t)) = true -> ft_mark_notarized t b = Some (t', ev) ->
+  t' = t /\ ev = fe_empty.
+Proof. exact late_notarization_ignored. Qed.
+
+Theorem C08_late_finalization_ignored : forall t s t' ev,
+  is_decided (alookup s (ft_status t)) = true -> ft_mark_finalized t s = Some (t', ev) ->
+  t' = t /\ ev = fe_empty.
+Proof. exact late_finalization_ignored. Qed.
+
+Theorem C08_late_fast_finalization_ignored : forall t b t' ev,
+  is_decided (alookup (fst b) (ft_status t)) = true -> ft_mark_fast_finalized t b = Some (t', ev) ->
+  ev = fe_empty /\ (forall s, ft_view t' s = ft_view t s) /\
+  ft_parents t' = ft_parents t /\ ft_first t' = ft_first t /\ ft_highest t' = ft_highest t.
+Proof. exact late_fast_finalization_ignored. Qed.
+
+Theorem C08_without_restore_refuted : exists C ops b t evs t' ev,
+  ft_consistent C (ops ++ [TNotar b]) = true /\ ft_run ft_init ops = Some (t, evs) /\
+  is_decided (alookup (fst b) (ft_status t)) = true /\
+  ft_mark_notarized_norestore t b = Some (t', ev) /\
+  ft_view t' (fst b) <> spec_view (ops ++ [TNotar b]) (fst b) /\
+  ft_view t' (fst b) <> ft_view t (fst b).
+Proof. exact norestore_refuted. Qed.
+
+Theorem C08_inconsistent_history_refuted :
+  ft_run ft_init [TFast (1, 1); TFast (1, 9)] = None /\
+  ft_run ft_init [TNotar (1, 1); TNotar (1, 2)] = None /\
+  exists t evs, let ops := [TFast (1, 1); TFast (2, 2); TFast (1, 9)] in
+    ft_run ft_init ops = Some (t, evs) /\ FinalStar ops (1, 9) /\ FinalStar ops (1, 1) /\
+    ~ In (1, 9) (all_final_events evs).
+Proof. exact inconsistent_history_refuted. Qed.
+
+Theorem C08_genesis_report_depends_on_order :
+  let C := fun s => if s =? 0 then Some 0 else if s =? 1 then Some 1 else None in
+  let a := [TParent (1, 1) (0, 0); TFast (1, 1)] in
+  let b := [TFast (1, 1); TParent (1, 1) (0, 0)] in
+  ft_consistent C a = true /\ ft_consistent C b = true /\
+  exists ta ea tb eb, ft_run ft_init a = Some (ta, ea) /\ ft_run ft_init b = Some (tb, eb) /\
+    In (0, 0) (all_final_events ea) /\ ~ In (0, 0) (all_final_events eb) /\
+    ft_first ta = ft_first tb /\ ft_highest ta = ft_highest tb.
+Proof. exact genesis_report_depends_on_order. Qed.
+
+(* the hypotheses are satisfiable by a history with finalization before notarization, a child link before the
+   parent link, a gap, and marks / links for slots already decided; and the run does what the theorems say *)
+Example C08_nonvacuous : ft_consistent ex_chain ex_ops = true.
+Proof. vm_compute. reflexivity. Qed.
+Example C08_nonvacuous_run : exists t evs, ft_run ft_init ex_ops = Some (t, evs) /\
+  ft_first t = 5 /\ ft_highest t = 5 /\
+  all_final_events evs = [(5, 5); (3, 3); (1, 1)] /\ all_skip_events evs = [4; 2].
+Proof. exact ex_ops_run. Qed.
+
 Print Assumptions C08_prune_lossless.
 Print Assumptions C08_pool_retains_only_undecided_suffix.
 Print Assumptions C08_old_votes_refused.
 Print Assumptions C08_old_certs_refused.
 Print Assumptions C08_undecided_votes_not_refused.
+Print Assumptions C08_consistent_run_never_panics.
+Print Assumptions C08_status_is_spec.
+Print Assumptions C08_reported_final_iff.
+Print Assumptions C08_reported_skipped_iff.
+Print Assumptions C08_spec_decides_final.
+Print Assumptions C08_spec_decides_skipped.
+Print Assumptions C08_highest_is_max_direct.
+Print Assumptions C08_watermark_is_decided_prefix.
+Print Assumptions C08_pruned_slots_follow_chain.
+Print Assumptions C08_run_monotone.
+Print Assumptions C08_events_exactly_once.
+Print Assumptions C08_consistency_inherited_by_prefixes.
+Print Assumptions C08_late_notarization_ignored.
+Print Assumptions C08_late_finalization_ignored.
+Print Assumptions C08_late_fast_finalization_ignored.
+Print Assumptions C08_without_restore_refuted.
+Print Assumptions C08_inconsistent_history_refuted.
+Print Assumptions C08_genesis_report_depends_on_order.
+Print Assumptions C08_nonvacuous.
+Print Assumptions C08_nonvacuous_run.
